@@ -44,11 +44,21 @@ def check_program(prog, n_qubits, allow_ps):
     from qiskit.quantum_info import Operator
     from lightworks.qubit import qiskit_converter
     from vf.spec import fock
-    qc = QuantumCircuit(n_qubits)
+    if isinstance(n_qubits, (list, tuple)):
+        # several quantum registers: the gates are addressed by the position of the qubit in the circuit, as everywhere in qiskit
+        from qiskit import QuantumRegister
+        qc = QuantumCircuit(*[QuantumRegister(k, f"r{j}") for j, k in enumerate(n_qubits)])
+        n_qubits = sum(n_qubits)
+    else:
+        qc = QuantumCircuit(n_qubits)
     for name, qs, params in prog:
         getattr(qc, name)(*params, *qs)
+    from vf.pyvc.rtc import _time_limit, _Timeout
     try:
-        circ, ps = qiskit_converter(qc, allow_post_selection=allow_ps)
+        with _time_limit(20.0):
+            circ, ps = qiskit_converter(qc, allow_post_selection=allow_ps)
+    except _Timeout:
+        return "the conversion did not finish within 20 s", "error"
     except ValueError as e:
         return None, "refused"
     Uq = Operator(qc).data      # qiskit ordering: qubit 0 is the least significant bit
@@ -115,6 +125,12 @@ def programs(tier):
         for s_ in sw:
             for g2 in [("cx", (0, 2)), ("cx", (1, 0)), ("cz", (0, 1)), ("cx", (1, 2))]:
                 progs.append((n, layer(0) + [(g1[0], g1[1], ())] + [(s_[0], s_[1], ())] + layer(2) + [(g2[0], g2[1], ())] + layer(1)))
+    # circuits made of several quantum registers (qubit positions in the circuit differ from positions in their register)
+    for regs in ([2, 1], [1, 2], [1, 1, 1]):
+        for q in range(3):
+            progs.append((regs, [("x", (q,), ()), ("h", ((q + 1) % 3,), ())]))
+        for g in [("cx", (0, 2)), ("cx", (2, 1)), ("cz", (1, 2)), ("cx", (0, 1)), ("swap", (0, 2))]:
+            progs.append((regs, layer(0) + [(g[0], g[1], ())] + layer(1)))
     if tier == "thorough":
         for g1, g2, g3 in itertools.islice(itertools.product(two, two + three, two), 0, None, 37):
             progs.append((n, layer(0) + [(g1[0], g1[1], ())] + layer(2) + [(g2[0], g2[1], ())] + [(g3[0], g3[1], ())] + layer(1)))
